@@ -194,6 +194,9 @@ func (eng *Engine) discharge(vc *VC, workDir string, timeoutMs int, thorough boo
 		switch {
 		case !o.Cover && o.Cond == "true":
 			o.Status, o.Solver = "unsat", "trivial"
+			if o.Assumed {
+				o.Solver = "assumed (undecided clause)"
+			}
 		case !o.Cover && o.Guard == "false":
 			o.Status, o.Solver = "unsat", "trivial"
 		case vc.retryOnly && (o.Cover || o.Status == "unsat"):
